@@ -79,6 +79,8 @@ func runC12(c *Ctx) {
 	c12Order(c)
 	c12CommitReuse(c)
 	c12ExactNames(c)
+	c12NestedTag(c, "R3")
+	c12NoRewriteAccumulates(c, "R2")
 	rw := p.Fn("git/githistory", "(*Rewriter).Rewrite")
 	rt := p.Fn("git/githistory", "(*Rewriter).rewriteTree")
 	if rw == nil || rt == nil {
